@@ -156,7 +156,7 @@ Proof.
   assert (E : map (fun kv => (fst kv, value_of (snd kv))) ms = map (fun kv => (fst kv, LOk (snd kv))) attrs).
   { revert attrs Hn Hv. clear Hnd. induction ms as [|[k x] ms IH]; intros [|[k' v'] attrs] Hn Hv; try discriminate.
     - reflexivity.
-    - cbn [map fst snd] in *. inversion Hn; inversion Hv; subst. f_equal; [congruence|]. apply IH; assumption. }
+    - cbn [map fst snd] in *. inversion Hn; inversion Hv; subst. f_equal. apply IH; assumption. }
   rewrite E, collect_attrs_ok. rewrite Hn.
   replace (has_dup (map fst ms)) with false by (symmetry; apply has_dup_NoDup; exact Hnd). reflexivity.
 Qed.
